@@ -392,6 +392,54 @@ def rule_g7(repo, col):
                "the TRUE/FALSE keys must stay 0 and None", construct="class %s: TRUE/FALSE" % bf.name, function=bf.name)
 
 
+def rule_g8(repo, col):
+    """add_atom: (a) atoms are shared by their identifier whatever the options (two add_atom calls on one identifier denote the same random variable): the `_add` call keeps the
+    default reuse or passes a value that folds to True for keep_all in {False, True}; (b) weight-based constant folding (is_zero -> FALSE, is_one -> TRUE) never applies to the
+    neutral weight, which marks explicitly present nodes such as the 'no head chosen' atom of an annotated disjunction"""
+    from ..astutil import const_value
+
+    f = repo.func(MOD, "LogicFormula.add_atom")
+    m = f.module
+    adds = [c for c in walk_no_nested(f.node) if isinstance(c, ast.Call) and norm(c.func) == "self._add"]
+    if len(adds) != 1:
+        raise AnalysisError("add_atom: self._add(...) call not found")
+    kw = {k.arg: k.value for k in adds[0].keywords}
+    ok = True
+    found = "default"
+    if "reuse" in kw:
+        found = norm(kw["reuse"])
+        for ka in (False, True):
+            okf, v = const_value(dtable._Scenario([("self.keep_all", ka), ("self._keep_all", ka)]).visit(ast.parse(found, mode="eval").body))
+            if not okf:
+                raise AnalysisError("add_atom: reuse argument not foldable: %s" % found)
+            ok = ok and bool(v)
+    col.decide("G8", m, adds[0], ok, "atoms are shared by identifier under every option set (reuse=%s)" % found,
+               "add_atom calls _add with reuse=%s, which is false for some value of keep_all: a second add_atom on a known identifier then returns a fresh, independent atom - and(x, -x) "
+               "becomes satisfiable and p(1,2) grounded through two different calls counts as two random variables" % found, construct="add_atom: atoms not shared by identifier",
+               function="LogicFormula.add_atom")
+    paths = dtable.extract(f.node, opaque_loops=True)
+    prob = f.params[2] if len(f.params) > 2 else "probability"
+    n = 0
+    bad = []
+    for p_ in paths:
+        if p_.end != "return" or p_.value not in ("self.TRUE", "self.FALSE"):
+            continue
+        cd = [(s_, t_) for s_, t_, _ in p_.conds]
+        by_weight = [s_ for s_, t_ in cd if t_ and ("is_zero(" in s_ or "is_one(" in s_)]
+        if not by_weight:
+            continue
+        n += 1
+        neutral_excluded = ("%s != self.WEIGHT_NEUTRAL" % prob, True) in cd or ("%s == self.WEIGHT_NEUTRAL" % prob, False) in cd or ("%s is not self.WEIGHT_NEUTRAL" % prob, True) in cd
+        if not neutral_excluded:
+            bad.append(by_weight[0])
+    if n == 0:
+        raise AnalysisError("add_atom: weight-folding paths not found")
+    col.decide("G8", m, f.node, not bad, "weight folding of atoms excludes the neutral weight",
+               "add_atom folds an atom to a constant by its weight (%s) without first excluding the neutral weight: with a propagate_weights semiring the 'no head chosen' atom of an "
+               "annotated disjunction (weight NEUTRAL, evaluated as one) is folded to TRUE, the AD constraint loses its extra node and rejects the admissible world in which no head is "
+               "chosen" % (bad[0][:70] if bad else ""), construct="add_atom: neutral weight folded", function="LogicFormula.add_atom")
+
+
 def run(repo, col):
     col.rule("G1", "no `return self.m(...)` of a method that returns nothing")
     col.rule("G2", "add_and/add_or pass the right node type and (absorbing, neutral) pair")
@@ -407,3 +455,5 @@ def run(repo, col):
     rule_g4c(repo, col)
     rule_g5(repo, col)
     rule_g7(repo, col)
+    col.rule("G8", "add_atom: sharing by identifier; neutral weight never folded")
+    rule_g8(repo, col)
